@@ -560,39 +560,208 @@ class RunSuite(Suite):
         return st
 
 
+class ThreadSuite(Suite):
+    """thread mode (scheduler(std::thread&)) and thread-pool mode (scheduler(thread_pool&)) with real threads under
+    virtual time: the main thread acts while the worker is parked, `adv t` moves the clock from deadline to deadline"""
+    name = "thread-and-pool-virtual-time"
+    harness = HARNESS
+    driver = "drv_c12"
+    corpus_prefix = "c12mt_"
+    chunk = 25
+    nontrivial_rule = "the worker woke at least two sleepers at different clock readings and a cancel hit a pending sleep"
+
+    def gen_case(self, rng):
+        kind = rng.choice(["thr", "thr", "pool 1", "pool 2", "pool 3"])
+        lines = ["case 0 %s" % kind]
+        nid = rng.choice([1, 2, 3, 5])
+        span = rng.choice([3, 8, 20])
+        clock = 0
+        p_sleep = rng.choice([0.35, 0.5, 0.65])
+        for k in range(rng.randint(4, 40)):
+            r = rng.random()
+            if r < p_sleep:
+                tp = max(0, clock - rng.randint(0, 3)) if rng.random() < 0.12 else clock + rng.randint(0, span)
+                lines.append("%s %d %d" % ("sleep" if rng.random() < 0.85 else "sched", tp, rng.randint(0, nid)))
+                continue
+            r = rng.random()
+            if r < 0.40:
+                clock += rng.randint(0, span)
+                lines.append("adv %d" % clock)
+            elif r < 0.65:
+                lines.append("cancel %d" % rng.randint(0, nid))
+            elif r < 0.77:
+                lines.append("cancelx %d %d" % (rng.randint(0, nid), rng.randint(1, 9)))
+            elif r < 0.90:
+                lines.append("remove %d" % rng.randint(0, nid))
+            else:
+                lines.append("dump")
+        if rng.random() < 0.3:
+            lines.append("adv %d" % (clock + span + 5))
+        if rng.random() < 0.15:
+            lines.append("destroy")
+        lines.append("end")
+        return {"id": 0, "lines": lines}
+
+    def gen_cases(self, rng, tier):
+        n = 400 if tier == "quick" else 40000
+        return [self.gen_case(rng) for _ in range(n)]
+
+    def oracle(self, case, out):
+        msgs = []
+
+        def bad(cat, txt):
+            msgs.append("%s: %s" % (cat, txt))
+
+        ops = [l for l in case["lines"][1:] if l.split()]
+        pend = {}      # k -> (tp, id, clock when scheduled)
+        clock = 0
+        nsleep = 0
+        for op, line in zip(ops, out):
+            w = op.split()
+            head, evs = parse_line(line)
+            if head and head[0] == "FATAL":
+                bad("hang", " ".join(head[1:]))
+                break
+            parsed = []
+            for e in evs:
+                m = re.match(r"sleep#(\d+)=([^@]*)@(\d+)$", e)
+                if not m:
+                    bad("protocol", "unparsable event %s" % e)
+                    continue
+                parsed.append((int(m.group(1)), m.group(2), int(m.group(3))))
+            cancelled_here = None
+            if w[0] in ("sleep", "sched"):
+                m = re.match(r"sleep#(\d+)$", head[0])
+                if not m or int(m.group(1)) != nsleep:
+                    bad("protocol", "unexpected sleep index in `%s`" % line)
+                    break
+                pend[nsleep] = (int(w[1]), int(w[2]), clock)
+                nsleep += 1
+            elif w[0] in ("cancel", "cancelx", "remove"):
+                ident = int(w[1])
+                want = "canceled" if w[0] == "cancel" else ("exc:%s" % w[2] if w[0] == "cancelx" else "ok")
+                cands = [k for k, (tp, i, t) in pend.items() if i == ident]
+                hit = [(k, o, c) for (k, o, c) in parsed if k in cands and o == want]
+                if cands:
+                    if head[1] != "1":
+                        bad("cancel-miss", "%s(%d) reported false although sleep#%s is pending with that identifier" % (w[0], ident, cands))
+                    if len(hit) != 1 and w[0] != "remove":
+                        bad("cancel-count", "%s(%d) completed %d sleeps with that identifier, expected exactly one" % (w[0], ident, len(hit)))
+                    if hit:
+                        cancelled_here = hit[0][0]
+                else:
+                    if head[1] != "0":
+                        bad("cancel-false", "%s(%d) reported true with nothing pending under that identifier" % (w[0], ident))
+            elif w[0] == "dump":
+                live = sorted(x.rsplit(":", 1)[0] for x in head[2:] if x.endswith(":1"))
+                want = sorted("%d:%d" % (tp, i) for (tp, i, t) in pend.values())
+                if live != want:
+                    bad("state", "live entries of the vector %s differ from the pending sleeps %s" % (live, want))
+            for (k, o, c) in parsed:
+                if k not in pend:
+                    bad("duplicate", "sleep#%d completed (%s) but is not pending: completed twice or never scheduled" % (k, o))
+                    continue
+                tp, ident, t0 = pend.pop(k)
+                if w[0] in ("end", "destroy"):
+                    if o != "canceled":
+                        bad("outcome", "sleep#%d pending at destruction completed with %s" % (k, o))
+                elif k == cancelled_here:
+                    pass
+                elif o == "ok":
+                    if w[0] == "remove" and ident == int(w[1]) and cancelled_here is None and head[1] == "1":
+                        cancelled_here = k      # the promise remove() handed back, resolved by the harness
+                        continue
+                    if c < tp:
+                        bad("early", "sleep#%d until %d completed at %d" % (k, tp, c))
+                    elif c != max(tp, t0):
+                        bad("late", "sleep#%d until %d (scheduled at %d) was completed by the idle worker at %d" % (k, tp, t0, c))
+                else:
+                    bad("outcome", "sleep#%d completed with %s during `%s`" % (k, o, op))
+            if w[0] == "adv":
+                clock = max(clock, int(w[1]))
+                late = [k for k, (tp, i, t) in pend.items() if tp <= clock]
+                if late:
+                    bad("late", "at clock %d the sleeps %s are due but still pending" % (clock, late))
+            if w[0] in ("end", "destroy"):
+                if pend:
+                    bad("hang", "sleeps %s are still pending after the scheduler was destroyed" % sorted(pend))
+                break
+        return msgs
+
+    def nontrivial(self, case, out):
+        clocks = set()
+        hit = False
+        for l in out:
+            for m in re.finditer(r"=ok@(\d+)", l):
+                clocks.add(m.group(1))
+            hit = hit or l.startswith("cancel 1")
+        return len(clocks) >= 2 and hit
+
+    def stats(self, cases, outs):
+        st = {"thread_mode_cases": 0, "pool_mode_cases": 0, "woken_by_worker": 0, "cancel_true": 0, "cancel_false": 0,
+              "notified": 0, "not_notified": 0, "dropped_at_destroy": 0, "ops": {}}
+        for c in cases:
+            st["thread_mode_cases" if c["lines"][0].split()[2] == "thr" else "pool_mode_cases"] += 1
+            for l in c["lines"][1:-1]:
+                k = l.split()[0]
+                st["ops"][k] = st["ops"].get(k, 0) + 1
+            for l in outs.get(str(c["id"]), []):
+                if l.startswith(("adv", "sleep#")):
+                    st["woken_by_worker"] += l.count("=ok@")
+                if l.startswith("cancel 1"):
+                    st["cancel_true"] += 1
+                elif l.startswith("cancel 0"):
+                    st["cancel_false"] += 1
+                if " ntf=1" in l:
+                    st["notified"] += 1
+                elif " ntf=0" in l:
+                    st["not_notified"] += 1
+                if l.startswith(("end", "destroy")):
+                    st["dropped_at_destroy"] += l.count("=canceled@")
+        return st
+
+
 class C12(Spec):
     pid = "C12"
     lean_modules = ["CoclsModel.Props.C12"]
     design_ref = "DESIGN.md §5 C12"
     technique = ("Lean 4 invariant proof (induction over all operation lists, for every heap implementation meeting the std contract; "
-                 "libstdc++'s algorithms proved to meet it) + differential correspondence with the real header")
+                 "libstdc++'s algorithms proved to meet it) + differential correspondence with the real header in manual mode, "
+                 "single-thread start(awaitable) mode, thread mode and thread-pool mode under a virtual clock")
     trusted_base = [
         "hand-written model lean/CoclsModel/Scheduler.lean tied to scheduler.h by differential correspondence "
         "(harness/h_sched.cpp vs lean/Drivers/C12.lean, predict mode incl. the vector layout via `dump`) on generated histories",
+        "harness interposition of std::mutex / std::condition_variable / std::chrono::system_clock by macro renaming around the cocls "
+        "includes (virtual clock; real threads act only at quiescent points in thread/pool mode)",
         "std::mutex / std::condition_variable / std::stop_token / std::vector as specified; std::push_heap/pop_heap are NOT trusted: "
-        "their libstdc++ transcription is proved to meet the contract (stdHeap_spec) and checked against the header by `dump`",
-        "promise/future layer (C01/C02) and coroutine resumption (C05) taken as specified",
+        "their libstdc++ transcription is proved to meet the contract (c12_stdHeap_spec) and checked against the header by `dump`",
+        "promise/future layer (C01/C02), coroutine ready queue (C05) and thread_pool (C11) taken as specified; the driver composes the "
+        "scheduler model with a FIFO ready queue for start(awaitable)",
     ]
     level_text = ("Lean 4 theorems over an executable model of cocls::scheduler (vector in array order with cancelled entries left in "
                   "place, one step per lock region, worker iterations as poll/wake steps, interval()'s stop callback as a lock program): "
                   "never early, deadline order, exactly once, nothing due withheld / worker never waits past the earliest deadline, "
                   "cancel true iff a pending sleep carries the id and then exactly one completes with the given exception, false = no-op, "
                   "stop-token cancellation terminates, destruction cancels everything — for every operation list, any number of workers, "
-                  "and every heap implementation meeting the contract of std::push_heap/pop_heap (hence every tie-break); the model is tied "
-                  "to scheduler.h by running both on generated histories and diffing every line; a relational property oracle "
-                  "(multiset of pending sleeps) runs on the implementation trace")
+                  "and every heap implementation meeting the contract of std::push_heap/pop_heap (hence every tie-break; libstdc++'s "
+                  "algorithms are proved to meet it); the model is tied to scheduler.h by running both on generated histories in four "
+                  "modes (manual, start(awaitable), std::thread, thread_pool; virtual clock) and diffing every line; relational property "
+                  "oracles (multiset of pending sleeps, wake-up clock = time point) run on the implementation traces")
     level_note = ("trusted: Lean kernel (axioms propext/Classical.choice/Quot.sound at most), the hand-written model, the differential "
                   "harness (sampling; virtual clock, interposed mutex/condition_variable), std::mutex/condition_variable/stop_token and the "
                   "promise/future layer (C01/C02). Thread interleavings are covered by the theorems (every public method is one lock "
                   "region, so an interleaving is an operation list; cancel's out-of-lock promise resolution touches only the removed "
-                  "promise) but exercised on the real code from one thread; real blocking/wake-up timing of wait_until is modelled as "
-                  "enabledness under virtual time, not measured.")
+                  "promise); on the real code the worker runs in real threads but the controlling thread acts only while it is parked, so "
+                  "races between a public call and a running worker iteration are not exercised, and real blocking/wake-up latency of "
+                  "wait_until is modelled as enabledness under virtual time, not measured. Not modelled: the stop handshake of "
+                  "~scheduler/start() (request_stop notifies without the mutex; a stop that arrives between the worker's stop check and "
+                  "its wait_until is only seen at the next deadline) — destruction is one atomic step in the model.")
     assumptions = ["the scheduler is not destroyed while another thread is inside one of its methods",
                    "callbacks attached to sleep futures do not re-enter the scheduler while the worker holds its mutex",
                    "time points and identifiers are modelled as unbounded naturals (no clock overflow)"]
 
     def suites(self):
-        return [ManualSuite(), RunSuite()]
+        return [ManualSuite(), RunSuite(), ThreadSuite()]
 
 
 SPEC = C12()
